@@ -21,7 +21,9 @@ SPEC = dict(
              'extend / append / frombytes / check_overflow / check_underflow / __delitem__ are re-translated from the source on every run and proved equal to the hand model for all '
              'arguments and states (see C06), so c07_src_invariant (every regenerated builder operation keeps 1023 bits / 4 refs, returning or raising), c07_src_refuse_iff, '
              'c07_src_refuse_iff_composite (raise iff out of range or no room; remaining refs of a slice) and c07_src_read_bounds (over-read raises and leaves the slice unchanged, '
-             'otherwise exactly the next bits and an advance by exactly that many) are theorems about the regenerated methods. store_snake_bytes stays hand model + differential testing. '
+             'otherwise exactly the next bits and an advance by exactly that many) are theorems about the regenerated methods. store_snake_bytes / store_snake_string are regenerated as well (Generated/SnakeOps.lean, equal to the hand model for all inputs, see C06): '
+             'c07_src_snake_capacity - for every byte string, every cell constructor and every within-capacity builder the regenerated snake store leaves the builder within 1023 bits / 4 refs '
+             '(returning or raising) and never asks for a cell of more than 1023 bits or 4 references (guarding the constructor by that test changes nothing). '
              'The model is tied to the working tree by '
              'differential testing of builder histories at every fill level and of over-reads, each also checked on the library alone against an '
              'independent fits/range predictor.',
